@@ -326,6 +326,7 @@ func corrOrefa(seed uint64, tier string, replay []string) *lib.Result {
 	}
 	seen := map[string]bool{}
 	nPanic, nHang, nIncons := 0, 0, 0
+	shrinks := 0
 	for k, h := range hs {
 		for i, l := range h {
 			if i == 0 || strings.HasSuffix(l, " dump") {
@@ -339,7 +340,8 @@ func corrOrefa(seed uint64, tier string, replay []string) *lib.Result {
 			st.Sample(map[string]any{"history": h[:n], "impl": impls[k][:n]})
 		}
 		// (1) implementation ≟ model
-		if d := lib.FirstDiff(impls[k], model[k]); d >= 0 {
+		if d := lib.FirstDiff(impls[k], model[k]); d >= 0 && shrinks < 60 {
+			shrinks++ // enough representatives after 60 minimisations (each costs many driver runs)
 			cut := h[:d+1]
 			small := lib.Shrink(cut, 1, func(c lib.History) bool {
 				fx, io := runOrefa(c)
